@@ -6,6 +6,7 @@
 package main
 
 import (
+	"bytes"
 	"flag"
 	"fmt"
 	"log"
@@ -190,14 +191,14 @@ func main() {
 		}
 		return g.Codec < 0x80 // Tp-BodyCodec carries string(rune(codec)); read back is its first byte
 	}
-	st.Rule = name + ": (a) pack/unpack of generated messages (all byte values in method/meta/status/body; lengths 0,1,255,256,65535,65536; seq extremes; every codec id (bin) / the codec restriction (struct); pipes over xor/rev/lenp/md5/gzip) under a size limit (sometimes at / one below the frame size), unpacked through 3 chunkings; (b) streams of 1-6 back-to-back frames through one protocol instance, 3 chunkings, sizes compared with each frame's own length; (c) frames decoded under a limit below their size. The THeader framing itself is the library's"
+	st.Rule = name + ": (a) pack/unpack of generated messages (all byte values in method/meta/status/body; lengths 0,1,255,256,65535,65536; seq extremes; every codec id (bin) / the codec restriction (struct); pipes over xor/rev/lenp/md5/gzip) under a size limit (sometimes at / one below the frame size), unpacked through 3 chunkings; (b) streams of 1-6 back-to-back frames through one protocol instance, 3 chunkings, sizes compared with each frame's own length; (c) frames decoded under a limit below their size; (d) duplex: a Pack between two chunks of an inbound frame; (e) cross: 1-3 Packs and 1-3 Unpacks on ONE protocol instance over a connection whose every Write and Read is gated by the harness, interleaved by a random schedule with exact quiescence between steps (an Unpack begins / proceeds / ends between any two Writes of a Pack and vice versa); oracle: every Size() equals the byte length of the message's own frame and everything equals the quiet-connection reference; the event trace goes to the model's counter machine. The THeader framing itself is the library's"
 	w := NewCaseWriter(cfg)
 	distinct := DistinctSet{}
 	kind := VS(*modeFlag)
 
 	for i := 0; i < cfg.N; i++ {
 		gz.ResetTab()
-		mode := r.Intn(20)
+		mode := r.Intn(24)
 		switch {
 		case mode < 12:
 			st.Count("mode:pack")
@@ -276,6 +277,133 @@ func main() {
 			}
 			w.Add(VL(VS("pack"), kind, VN(fits(packLim)), VN(fits(unpackLim)), VB(ids), gz.TabVal(), g.Val()), VL(packObs, unpObs))
 			distinct.Add(human)
+		case mode >= 20: // Packs and Unpacks of ONE protocol instance under a forced interleaving
+			st.Count("mode:cross")
+			socket.SetMessageSizeLimit(c05lib.BigLim)
+			genIn := func(maxBody int) (*c05lib.GenMsg, []byte) {
+				g := c05lib.GenMessage(r, st, prof)
+				if len(g.Body) > maxBody {
+					g.Body = g.Body[:maxBody]
+				}
+				ids := c05lib.GenIds(r, false)
+				if structMode {
+					ids = nil
+					g.Codec = 't'
+				}
+				if g.Mtype < 1 || g.Mtype > 3 {
+					g.Mtype = byte(1 + r.Intn(3))
+				}
+				return g, ids
+			}
+			render := func(u unpacked) string {
+				if !u.ok {
+					return "sfail"
+				}
+				return VL(VS("ok"), u.fields) + " " + VN(int64(u.size))
+			}
+			// the inbound frames, each packed and decoded on a quiet connection
+			var frames [][]byte
+			var items []string
+			decAlone := func(f []byte) string {
+				return render(unpackOne(pf(&c05lib.ChunkRW{Chunks: [][]byte{append([]byte(nil), f...)}})))
+			}
+			q := &c05lib.XQuiet{Same: func(got, want []byte) bool {
+				return len(got) == len(want) && decAlone(got) == decAlone(want)
+			}}
+			for j, k := 0, 1+r.Intn(3); j < k; j++ {
+				g, ids := genIn(5000)
+				out, res, _, _ := packOne(pf, g, ids)
+				if res != "ok" {
+					continue
+				}
+				a := unpackOne(pf(&c05lib.ChunkRW{Chunks: [][]byte{append([]byte(nil), out...)}}))
+				if !a.ok {
+					continue
+				}
+				frames = append(frames, out)
+				items = append(items, VL(VB(ids), g.Val()))
+				q.Unp = append(q.Unp, render(a))
+			}
+			tab := gz.TabVal()
+			// the outgoing messages, each packed on a quiet connection
+			type outMsg struct {
+				g   *c05lib.GenMsg
+				ids []byte
+			}
+			var outs []outMsg
+			for j, k := 0, 1+r.Intn(3); j < k; j++ {
+				g, ids := genIn(2000)
+				out, res, _, size := packOne(pf, g, ids)
+				if res != "ok" {
+					continue
+				}
+				outs = append(outs, outMsg{g, ids})
+				q.PackFrame = append(q.PackFrame, out)
+				q.PackRes = append(q.PackRes, fmt.Sprintf("ok size=%d", size))
+			}
+			packSize := make([]uint32, len(outs))
+			unp := make([]unpacked, len(frames))
+			x := c05lib.Cross(r, pf, frames, false, len(outs),
+				func(pr socket.Proto, j int) (res string) {
+					defer func() {
+						if e := recover(); e != nil {
+							res = "panic"
+						}
+					}()
+					m := newMessage(outs[j].g, outs[j].ids)
+					if err := pr.Pack(m); err != nil {
+						return "err"
+					}
+					packSize[j] = m.Size()
+					return fmt.Sprintf("ok size=%d", m.Size())
+				},
+				func(pr socket.Proto, j int) string { unp[j] = unpackOne(pr); return render(unp[j]) })
+			c05lib.CountCross(st, x)
+			human := c05lib.Clip(fmt.Sprintf("%s cross inbound=%d frames %x outgoing=%d messages", name, len(frames), bytes.Join(frames, nil), len(outs)))
+			c05lib.CrossOracle(st, i, x, q, human)
+			allOK := x.OK
+			if x.OK {
+				// the protocol's own statement: Size() = the bytes of the message's own frame
+				for j := range outs {
+					if x.PackRes[j] != "err" && x.PackRes[j] != "panic" && int(packSize[j]) != len(x.PackFrame[j]) {
+						st.Fail(i, "size-not-own", fmt.Sprintf("outgoing message %d: Pack reports size %d for the %d bytes it wrote, while an Unpack runs on the same protocol instance", j, packSize[j], len(x.PackFrame[j])), human+" schedule: "+x.Sched)
+					}
+					if x.PackRes[j] == "err" || x.PackRes[j] == "panic" {
+						allOK = false
+					}
+				}
+				for j := range frames {
+					if unp[j].ok && int(unp[j].size) != len(frames[j]) {
+						st.Fail(i, "size-not-own", fmt.Sprintf("inbound frame %d of %d bytes is reported with size %d, while a Pack runs on the same protocol instance", j, len(frames[j]), unp[j].size), human+" schedule: "+x.Sched)
+					}
+					if !unp[j].ok {
+						allOK = false
+					}
+				}
+			}
+			if !allOK {
+				// (reported by the oracle above; nothing the model could be compared on)
+				w.Add(VL(VS("stream"), kind, tab, VL()), VL(VL(), "sok"))
+				distinct.Add(human)
+				break
+			}
+			var frs, sizes []string
+			for j := range frames {
+				frs = append(frs, VL(VS("ok"), unp[j].fields))
+			}
+			pj, uj := 0, 0
+			for _, e := range x.Trace {
+				switch e.K {
+				case "pe":
+					sizes = append(sizes, VL(VS("p"), VN(int64(packSize[pj]))))
+					pj++
+				case "ue":
+					sizes = append(sizes, VL(VS("u"), VN(int64(unp[uj].size))))
+					uj++
+				}
+			}
+			w.Add(VL(VS("cross"), kind, tab, VL(items...), x.TraceVal()), VL(VL(frs...), "sok", VL(sizes...)))
+			distinct.Add(human + x.Sched)
 		case mode >= 17: // one frame arriving in chunks while the SAME protocol instance packs
 			st.Count("mode:duplex")
 			socket.SetMessageSizeLimit(c05lib.BigLim)
